@@ -31,6 +31,30 @@ def run(tier):
     st = run_harness(chk, "routing tables", "pkg/routing", FILES + ["routing/c20_dtlsr.go"], "TestVerifC20Dtlsr", env={"VERIF_IN": inp}, timeout=1500)
     if st.get("graphs") != len(g.traces) or st.get("routes_checked", 0) < 100:
         raise InfraError("vacuous or incomplete: %s" % st)
+    # several convergence layers to one node: every node is served once
+    recf = os.path.join(scratch("rec"), "c20-links.ndjson")
+    st3 = run_harness(chk, "peer selection over parallel links", "pkg/routing", FILES + ["routing/c20_dtlsr.go"], "TestVerifC20Links", env={"VERIF_REC": recf}, timeout=600)
+    lrecs = read_ndjson(recf)
+    if len(lrecs) != st3.get("selections") or len(lrecs) < 100:
+        raise InfraError("selection recorder incomplete: %s" % st3)
+    chkmod = {"DtlsrCheck.tla": """---- MODULE DtlsrCheck ----
+EXTENDS Dtlsr
+CONSTANT RecFile
+MCF == {"a"}
+MCL == {"z"}
+MCLS == {"absent", "live"}
+Recs == ndJsonDeserialize(RecFile)
+ASSUME \\A i \\in 1..Len(Recs) : LET p == SelectionProblems(Recs[i]) IN p = {} \\/ PrintT(<<"BAD", ToJson([i |-> i, problems |-> p])>>)
+ASSUME PrintT(<<"CHECKED", ToJson([n |-> Len(Recs)])>>)
+CheckSpec == Init /\\ [][FALSE]_c
+====
+"""}
+    n3, bad3, results3 = check_records("DtlsrCheck", ' Foreign <- MCF\n Leaves <- MCL\n LinkStates <- MCLS\n Mode = "updates"', lrecs, name="dtlsrcheck", extra_files=chkmod)
+    for r in results3:
+        chk.add_tlc("selection records", r)
+    for idx, problems in bad3:
+        for p in problems:
+            chk.violation("dtlsr/selection/" + p, "record judged by Dtlsr!SelectionProblems: " + json.dumps(lrecs[idx])[:400], lrecs[idx])
     P = ["p1", "p2", "p3"]
     fam = dict(peers=P, enabled=["Receive", "PeerUp", "PeerDown", "SetFail", "RetryTick", "Learn", "Recompute"],
                cat={"u1": attr("p3", "far", prev="p3"), "u2": attr("p1", "p2", prev="p1"), "l1": attr("p2", "bcast", prev="p2")})
